@@ -218,7 +218,7 @@ def iter_next(e,run,it):
                 r=e.call_value(run,f,[x])
                 if r.vname=='None': drop=True; break
                 x=r.f[0]
-            elif kind=='cloned': x=e.clone(run,x)
+            elif kind=='cloned': x=x.get() if (isinstance(x,Ref) and isinstance(x.get(),Ref)) else e.clone(run,x)      # items &&T -> &T
             elif kind=='flatten':
                 sub=to_iter(e,run,x)
                 it2=Iter([],it.adapt[it.adapt.index((kind,f))+1:]); it2.inner=None
@@ -485,7 +485,9 @@ def m_opt_as_deref(e,run,a,f):
 def m_opt_cloned(e,run,a,f):
     r=a[0]
     if r.vname=='None': return r
-    return some(e.clone(run,r.f[0]))
+    x=r.f[0]
+    if isinstance(x,Ref) and isinstance(x.get(),Ref): return some(x.get())       # Option<&&T>::copied() -> Option<&T>
+    return some(e.clone(run,x))
 def m_opt_take(e,run,a,f):
     r=a[0]; v=r.get(); r.set(none()); return v
 def m_then_some(e,run,a,f):
@@ -786,7 +788,18 @@ def m_splitn(e,run,a,f):
     return Iter([Ref(Cell(Str(p,False))) for p in parts])
 def m_split_whitespace(e,run,a,f):
     bl=byte_list(a[0]); c=conc_bytes(bl)
-    if c is None: raise Unsupported('split_whitespace symbolic')
+    if c is None:
+        # symbolic bytes: forks on `byte is ASCII white space` (TAB LF VT FF CR SPACE); a symbolic byte >= 0x80 is taken to be part
+        # of a non-space character (the multi-byte Unicode spaces U+0085, U+00A0, U+1680, U+2000.. are outside this model)
+        parts=[]; cur=[]
+        for x in bl:
+            if isinstance(x,int): ws=x in (9,10,11,12,13,32)
+            else: ws=run.branch_bool(Bool(z3.Or(z3.And(z3.UGE(x,9),z3.ULE(x,13)),x==32)),'split_whitespace')
+            if ws:
+                if cur: parts.append(cur); cur=[]
+            else: cur.append(x)
+        if cur: parts.append(cur)
+        return Iter([Ref(Cell(Str(p))) for p in parts])
     return Iter([Ref(Cell(Str(list(p.encode())))) for p in c.decode().split()])
 def m_str_split_char(e,run,a,f):
     bl=byte_list(a[0]); pb=pat_bytes(a[1]); parts=[]; cur=[]; i=0
